@@ -56,6 +56,19 @@ type Cfg struct {
 	// PlainStrings: (mock store) the stored values are plain Go []string / map[string]string
 	// values, with strings that hold control characters and other unusual runes.
 	PlainStrings bool `json:"plainStrings,omitempty"`
+	// Typed: (badgerstore, models) the store has a struct type whose fields are all optional
+	// (omitempty): a record holds only the members that are set.
+	Typed bool `json:"typed,omitempty"`
+}
+
+// typedRec is the value type of the Typed configurations.
+type typedRec struct {
+	A      interface{} `json:"a,omitempty"`
+	B      interface{} `json:"b,omitempty"`
+	C      interface{} `json:"c,omitempty"`
+	Hidden interface{} `json:"hidden,omitempty"`
+	Name   interface{} `json:"name,omitempty"`
+	Gone   interface{} `json:"gone,omitempty"`
 }
 
 // Mut is one mutation.
@@ -87,6 +100,11 @@ func storedValue(cfg Cfg, text string) interface{} {
 		m := map[string]string{}
 		_ = json.Unmarshal([]byte(text), &m)
 		return m
+	}
+	if cfg.Typed {
+		var r typedRec
+		_ = json.Unmarshal([]byte(text), &r)
+		return r
 	}
 	if cfg.Store == "badger" {
 		var m map[string]interface{}
@@ -178,6 +196,13 @@ func served(cfg Cfg, text string, exists bool) string {
 			return canon([]byte(cfg.Default))
 		}
 		return ""
+	}
+	if cfg.Typed {
+		// members that are null are not part of the record
+		var r typedRec
+		_ = json.Unmarshal([]byte(text), &r)
+		b, _ := json.Marshal(r)
+		text = string(b)
 	}
 	if cfg.Store == "badger" {
 		// the untyped badgerstore keeps values as map[string]interface{}: numbers pass through float64
@@ -295,7 +320,11 @@ func newFixture(cfg Cfg) (*fixture, error) {
 			return nil, err
 		}
 		f.cleanup = cleanup
-		f.st = badgerstore.NewStore(db).SetPrefix(cfg.Prefix)
+		bst := badgerstore.NewStore(db).SetPrefix(cfg.Prefix)
+		if cfg.Typed {
+			bst.SetType(typedRec{})
+		}
+		f.st = bst
 	} else {
 		ms := mockstore.NewStore()
 		// ids for records created through Write("") are generated: gen1, gen2, ...
@@ -831,6 +860,7 @@ func genCfg(storeKind string) *rapid.Generator[Cfg] {
 		// (without a default, what a get of a missing record answers when the store wraps its
 		// not-found error is not specified: only generated together with a default)
 		c.WrapNotFound = wrapnf && c.Default != ""
+		c.Typed = storeKind == "badger" && c.Type == "model" && rapid.IntRange(0, 2).Draw(t, "typed") == 0
 		if storeKind == "mock" && c.Trans != "custom" && c.Default == "" && rapid.IntRange(0, 4).Draw(t, "plain") == 0 {
 			c.PlainStrings = true
 		}
